@@ -61,21 +61,28 @@ def byte_compares(f):
     return out
 
 
-def ptr_shape(f, p, param):
+def ptr_shape(f, p, param, field=None, prog=None):
     """how pointer p relates to parameter `param`: 'fixed0' (the parameter itself), 'fixedN', 'moving+K' (derived through a
-    phi, K = constant offset from the moving pointer), None (unrelated)"""
+    phi, K = constant offset from the moving pointer), None (unrelated).  With `field` (a byte offset) the parameter is a
+    pointer to a cursor object and the text pointer is what that member of it holds."""
     off = 0
     seen = set()
     moving = False
     work = [(p, 0)]
     res = None
+
+    def loc(q):
+        if prog is None:
+            return None
+        b, o, ex = resolve_ptr(prog, q, f.unit)
+        return (strip_casts(b), o) if ex else None
     while work:
         v, o = work.pop()
         v = strip_casts(v)
         if id(v) in seen:
             continue
         seen.add(id(v))
-        if v is param:
+        if field is None and v is param:
             return ("moving", o) if moving else ("fixed", o)
         if v.is_inst and v.op == "getelementptr":
             k = 0
@@ -97,11 +104,14 @@ def ptr_shape(f, p, param):
             for x in v.ops:
                 work.append((x, 0))
         elif v.is_inst and v.op == "load":
-            # pointer variable kept in memory (address-taken local): treat as moving
+            # pointer variable kept in memory (address-taken local, member of a cursor object): treat as moving
             moving = True
             pl = strip_casts(v.ops[0])
+            lp = loc(pl)
+            if field is not None and lp is not None and lp[0] is param and lp[1] == field:
+                return ("moving", o)
             for i in f.insts():
-                if i.op == "store" and strip_casts(i.ops[1]) is pl:
+                if i.op == "store" and (strip_casts(i.ops[1]) is pl or (lp is not None and loc(i.ops[1]) == lp)):
                     work.append((i.ops[0], 0))
     return None
 
@@ -165,18 +175,20 @@ def extract_parser(chk, prog):
                         L.sep |= set(ord(ch) for ch in s)
     seen = set()
     per = {}
+    work = [(g, k, None) for (g, k) in work]
     while work:
-        g, k = work.pop()
-        if (g.qname, k) in seen or g.decl:
+        g, k, fld_ = work.pop()
+        if (g.qname, k, fld_) in seen or g.decl:
             continue
-        seen.add((g.qname, k))
+        seen.add((g.qname, k, fld_))
         g.build()
         chk.analysed(g)
-        L.fns.append(g.name)
+        if g.name not in L.fns:
+            L.fns.append(g.name)
         par = g.params[k]
         d = per.setdefault(g.name, {"fn": g, "E": {}, "cur": {}})
         for (c, ld, ic) in byte_compares(g):
-            sh = ptr_shape(g, ld.ops[0], par)
+            sh = ptr_shape(g, ld.ops[0], par, fld_, prog)
             if sh is None:
                 continue
             la = lookahead_offset(g, ld)
@@ -193,8 +205,22 @@ def extract_parser(chk, prog):
             if t is None or isinstance(t, ExternFn) or t.decl:
                 continue
             for kk, a in enumerate(c.ops):
-                if getattr(a, "ty", "") == "i8*" and ptr_shape(g, a, par) is not None:
-                    work.append((t, kk))
+                if getattr(a, "ty", "") == "i8*" and ptr_shape(g, a, par, fld_, prog) is not None:
+                    work.append((t, kk, None))
+                    continue
+                # a cursor object handed on by address: the members of it that hold the text pointer
+                ab = strip_casts(a)
+                if not (getattr(a, "ty", "") or "").endswith("*") or kk >= len(t.params):
+                    continue
+                if fld_ is not None and ab is par:
+                    work.append((t, kk, fld_))
+                elif ab.is_inst and ab.op == "alloca":
+                    for st in g.insts():
+                        if st.op != "store" or not (getattr(st.ops[0], "ty", "") == "i8*"):
+                            continue
+                        b_, o_, ex_ = resolve_ptr(prog, st.ops[1], g.unit)
+                        if ex_ and strip_casts(b_) is ab and ptr_shape(g, st.ops[0], par, fld_, prog) is not None:
+                            work.append((t, kk, o_))
     # tokenizers: functions that look at the byte after the current one and compare it with something other than NUL.
     # the escape introducer is the current-byte constant whose equality edge leads to those look-ahead comparisons
     L.tok = []
